@@ -12,10 +12,10 @@ BasicLit into a value.  Transcribed here, for one token:
   * literal.Unquote on the token (compile.go, `case token.STRING`)  → `Quote.unquote` (C09)
   * the scanner's number token and literal.ParseNum (`case token.INT, token.FLOAT`)
                                                 → `NumLit.scannerAccepts`, `NumLit.parseNum` (C09)
-  * `NumInfo.decimal` for base 10 without multiplier: `_ = v.UnmarshalText(p.buf)` — the
-    error is IGNORED — i.e. apd `Decimal.setString` + `setExponent` under `apd.BaseContext`
-    (Precision 0, exponent limits ±100000), with `strconv.ParseInt(_, 10, 32)` for the
-    exponent                                                     → `apdSetString`
+  * `NumInfo.decimal` for base 10 without multiplier: `v.UnmarshalText(p.buf)`, whose error
+    is returned (the number is then rejected at compile time) — i.e. apd `Context.SetString` =
+    `Decimal.setString` + `round`/`setExponent` under `apd.BaseContext` (Precision 0, exponent
+    limits ±100000), with `strconv.ParseInt(_, 10, 32)` for the exponent   → `apdSetString`
   * the unary minus of adt `UnaryExpr` (`f.X.Neg(&v.X)`, apd `Decimal.Neg`)   → `apdNeg`
   composed in `decodeString` / `decodeNumber`.
   (json.Valid / json.Decoder of Go's encoding/json run first and reject everything that is not
@@ -149,8 +149,8 @@ def apdSetExponent (coeff : Nat) (xs : List Int) : Int × Bool :=
 
 /-- `Context.SetString` = `Decimal.setString` + `c.round` (called as `v.UnmarshalText(p.buf)` →
 `BaseContext.SetString`).
-Returns the state `d` is left in and whether an error was returned.  `NumInfo.decimal`
-IGNORES the error, so the left-over state is what the decoder uses. -/
+Returns the state `d` is left in and whether an error was returned (`NumInfo.decimal` turns
+an error into a rejection of the literal). -/
 def apdSetString (s0 : Bytes) : ApdDec × Bool :=
   let (s1, neg) := match s0 with
     | 0x2D :: r => (r, true)
@@ -204,8 +204,8 @@ def apdNeg : ApdDec → ApdDec
   | .inf neg => .inf (!neg)
 
 /-- What the JSON decoder makes of a number token `t` (`-` + literal is a UnaryExpr over a
-BasicLit).  `none`: the scanner does not lex the unsigned part as one number token, or
-`literal.ParseNum` rejects it.  Only base-10 spellings without separator and multiplier are in
+BasicLit).  `none`: the scanner does not lex the unsigned part as one number token,
+`literal.ParseNum` rejects it, or apd's SetString reports an error (exponent out of range).  Only base-10 spellings without separator and multiplier are in
 scope (for these `p.buf` equals the literal); others are answered `none`. -/
 def decodeNumber (t : Bytes) : Option (NumLit.Kind × ApdDec) :=
   let (neg, u) := match t with
@@ -219,8 +219,10 @@ def decodeNumber (t : Bytes) : Option (NumLit.Kind × ApdDec) :=
       match NumLit.parseNum u with
       | none => none
       | some k =>
-        let d := (apdSetString u).1
-        some (k, if neg then apdNeg d else d)
+        -- `NumInfo.decimal`: `if err := v.UnmarshalText(p.buf); err != nil { return p.errorf(…) }`
+        -- (since commit 1674508; before, the error was discarded and the left-over state used)
+        let (d, err) := apdSetString u
+        if err then none else some (k, if neg then apdNeg d else d)
 
 /-! ## encoder: strings -/
 
